@@ -453,6 +453,10 @@ func (g *generator) typePrinter(f *file, addImports map[string]string, aliases m
 				if !isPackagePathEquivalent(pkg, ip) {
 					continue
 				}
+				if imp.Name != nil && (imp.Name.Name == "_" || imp.Name.Name == ".") {
+					// Not a name to qualify a type with.
+					continue
+				}
 
 				// Using a named import.
 				if imp.Name != nil {
